@@ -105,7 +105,15 @@ def run(pid, tier, seed, replay=None):
                 else:
                     v.add_inconclusive("harness died without naming a case: rc=%s tail=%s" % (r["rc"], r["out"][-300:]))
 
-    v.coverage.update(evaluations=int(evaluations), distinct_nontrivial=len(distinct), rule=RULES[pid],
+    # memcheck cross-check: a slice of the same cases in the plain flavour under valgrind (values read before they are written are
+    # invisible to ASan/UBSan)
+    pbin = vlib.build_harness("values", "plain")
+    mres = vlib.run_memcheck(pbin, ["--prop", prop, "--seed", str(seed + 11), "--cases", str(1500 if tier == "quick" else 40000), "--mode", tier], 8 if tier == "quick" else vlib.NCPU, work,
+                             timeout=600 if tier == "quick" else 7200)
+    mc, md, ms, mst = vlib.collect_runs(v, mres, judge_report=lambda rep: rep.get("in_repo"))
+    memcheck = dict(evaluations=int(mc.get("evaluations", 0)), **mst)
+
+    v.coverage.update(memcheck_pass=memcheck, evaluations=int(evaluations), distinct_nontrivial=len(distinct), rule=RULES[pid],
                       samples=samples[:8], monitor_counts=all_counts, sanitizer_reports_seen=san_reports,
                       sanitizer_report_keys=san_keys, shards=nsh, resumed_after_fatal_report=restarts_total)
     v.assumptions += ["library and harness built -O1/-O0 -DNDEBUG-free with -fsanitize=address,undefined,float-cast-overflow and libstdc++ vector annotations",
